@@ -72,6 +72,7 @@ func (ex *Exec) step(fr *Frame, in ssa.Instruction, st *State, cur *smt.Term) *s
 	case *ssa.IndexAddr:
 		base := ex.val(fr, x.X)
 		idx := ex.val(fr, x.Index).Tm
+		ex.noteIdx(idx)
 		switch bt := base.T.Underlying().(type) {
 		case *types.Slice:
 			arr, off, ln, _ := ex.sliceParts(base.Tm)
@@ -189,7 +190,15 @@ func (ex *Exec) step(fr *Frame, in ssa.Instruction, st *State, cur *smt.Term) *s
 		return cur
 	case *ssa.Select:
 		ex.note(ex.Abstr, "select")
-		fr.vals[x] = ex.freshFor("select", x.Type(), st)
+		sv := ex.freshFor("select", x.Type(), st)
+		if len(sv.Tup) > 0 {
+			lo := int64(0)
+			if !x.Blocking {
+				lo = -1
+			}
+			ex.assume(c.And(c.Le(c.IntLit(lo), sv.Tup[0].Tm), c.Lt(sv.Tup[0].Tm, c.IntLit(int64(len(x.States))))))
+		}
+		fr.vals[x] = sv
 		return cur
 	case *ssa.Go:
 		ex.note(ex.Abstr, "go-statement")
